@@ -122,48 +122,7 @@ func c03Core(sc *hpScenario) bool {
 	return true
 }
 
-func c03Name(sc *hpScenario) string {
-	var parts []string
-	for _, r := range sc.Requests {
-		k := "twoway"
-		if r.Oneway {
-			k = "oneway"
-		}
-		if r.Body {
-			k += "+body"
-		}
-		parts = append(parts, k+"["+strings.Join(r.Script, ",")+"]")
-	}
-	s := strings.Join(parts, "|")
-	if sc.RetryOn {
-		s += fmt.Sprintf(" retry_on(%d)", sc.NumRetries)
-	}
-	if sc.TryTimeoutMs > 0 {
-		s += " try-timeout"
-	}
-	if sc.DownDisconnect {
-		s += " down-disconnect"
-	}
-	if len(sc.FailHosts) > 0 {
-		s += fmt.Sprintf(" connect-fail-hosts=%v/%d", sc.FailHosts, sc.Hosts)
-	}
-	if len(sc.TimeoutHosts) > 0 {
-		s += fmt.Sprintf(" connect-timeout-hosts=%v/%d", sc.TimeoutHosts, sc.Hosts)
-	}
-	if sc.NoRoute {
-		s += " no-route"
-	}
-	if sc.NoHosts {
-		s += " no-hosts"
-	}
-	if sc.AllUnhealthy {
-		s += " all-unhealthy"
-	}
-	if sc.MaxRequests > 0 {
-		s += fmt.Sprintf(" max_requests=%d", sc.MaxRequests)
-	}
-	return s
-}
+func c03Name(sc *hpScenario) string { return hpScenarioName(sc) }
 
 // c03Check evaluates the oracle on one finished execution.
 func c03Check(sc *hpScenario, obs *hpObs, r *vrt.Result, report func(kind, detail string)) {
